@@ -90,7 +90,7 @@ func (mbp *multipartBodyProcessor) ProcessRequest(reader io.Reader, v plugintype
 			}
 			totalSize += size
 			filesCol.Add("", filename)
-			fileSizesCol.SetIndex(filename, 0, fmt.Sprintf("%d", size))
+			fileSizesCol.Add(filename, fmt.Sprintf("%d", size))
 			filesNamesCol.Add("", p.FormName())
 			filesCombinedSizeCol.(*collections.Single).Set(fmt.Sprintf("%d", totalSize))
 			if seenUnexpectedEOF {
